@@ -32,7 +32,8 @@ LEVEL_NOTE = ('Trusted: Coq kernel, the hand-written model Cleanup.v, the harnes
               'tiles of the selected levels that intersect the coverage; that hypothesis is checked by Coq on every walk the '
               'real TileWalker performed in the correspondence run.  Time is modelled in integer ticks (4 per second in the '
               'harness); SQLite datetime() and time.mktime are exercised with TZ=UTC only.  Symlinked single-colour tiles, '
-              'dry_run and progress stores are outside the model.')
+              'dry_run, progress stores, grids with origin ul and runs in which cleanup() raises (known finding '
+              'level-db-unlinked-twice) are outside the model; cleanup_tasks models the loop over tasks for runs that do not raise.')
 DESIGN_REF = 'DESIGN.md section 5, C12'
 RULE = ('case = (backend, layout, grid, meta size, contents with mtimes, task levels / remove time / remove_all / coverage); '
         'non-trivial = at least one tile removed and one tile kept, or a tile within one second of the remove time; '
